@@ -251,6 +251,9 @@ func ruleToken(c *Ctx) {
 		}
 		l.stat("R-TOKEN").Extra[b.Name+"_decoders"] = dn
 		b.resolverDecides(l)
+		if b.Name == "v5" {
+			b.indexSyntax(l)
+		}
 		// the pointer is split as given: strings.Split(path, "/") applied to the path parameter
 		// itself, and exactly the element in front of the first "/" is dropped (a trimmed or
 		// cleaned path loses leading empty reference tokens: "//a" is the member "a" of the
